@@ -41,6 +41,7 @@ pub const OP_FSTAT: u8 = 10;
 pub const F_EINTR: u8 = 1;
 pub const F_SHORT: u8 = 2;
 pub const F_ERRNO: u8 = 3;
+pub const F_EOF: u8 = 4;
 
 #[repr(C)]
 #[derive(Clone, Copy, Debug, Default, PartialEq, Eq)]
@@ -65,6 +66,7 @@ pub struct ShimStat {
     pub pid_reads: u64,
     pub tty_reads: u64,
     pub dirs_permuted: u64,
+    pub eof: u64,
 }
 
 #[derive(Clone, Copy)]
@@ -83,7 +85,7 @@ impl Shim {
         }
         let ctl: CtlFn = unsafe { std::mem::transmute(p) };
         let s = Shim { ctl };
-        if s.call(CMD_VERSION, 0, 0) != 3 {
+        if s.call(CMD_VERSION, 0, 0) != 4 {
             return None;
         }
         Some(s)
@@ -142,6 +144,7 @@ impl Shim {
             pid_reads: o[7],
             tty_reads: o[8],
             dirs_permuted: o[9],
+            eof: o[11],
         }
     }
 }
